@@ -65,10 +65,12 @@ def driver_universe(ex, ck, aborts=False, budget=None):
     #     terminator style, byte-order mark, bytes that are not UTF-8, with and without markers, all five splitters
     loaded = [b"one\r\ntwo\r\nkeep\r\n", b"a\rb\rc", b"\xef\xbb\xbfx\ny\n", b"p\xff\nq\xc3\n\xa9r\n",
               b"h\r\n// DDBEGIN\r\nl1\r\nl2\rl3\n// DDEND\r\nt\r", b"u\xc2\x85v\xe2\x80\xa8w\x0cx\n",
-              b"x = 'a\\r\\n' + \"b\";\r\n", b'<a b="c"\r\n d=e>\r\n']
+              b"x = 'a\\r\\n' + \"b\";\r\n", b'<a b="c"\r\n d=e>\r\n',
+              # no delimiter / terminator at the very end
+              b"var a = 1;\nvar b = 2;\ncrash(a)"]
     for i, data in enumerate(loaded):
         for atom in ("line", "char", "symbol", "jsstr", "attrs"):
-            if quick and (i + len(atom)) % 2:
+            if quick and (i + len(atom)) % 2 and i not in (1, 4, 8):
                 continue
             explore("minimize", {}, None, file0=data, atom=atom, load=True, stream="loaded-" + atom,
                     max_runs=12 if quick else 120)
@@ -117,6 +119,10 @@ def driver_universe(ex, ck, aborts=False, budget=None):
     for tc in small_layouts(2):
         for v in ("Y", "N"):
             ex.one("check-only", {}, tc, content(tc), v, stream="check-only")
+            ex.one("check-only", {}, tc, content(tc), v, stream="check-only-auto-tmp", auto_tmp=True)
+    # 3b. no directory chosen in advance: Lithium.run creates ./tmp1 itself (hooks, numbering, copies as before)
+    for tc in small_layouts(3, with_nonred=False):
+        explore("minimize", {}, tc, stream="minimize-auto-tmp", max_runs=30 if quick else 300, auto_tmp=True)
     # 4. seeded random verdicts on larger inputs
     for i in range(30 if quick else 300):
         n = r.randint(5, 40)
